@@ -411,6 +411,12 @@ def run_indicator_task(source, contracts, loops, spec, variant, natives=None, ti
                 # work bound: iteration spaces inside the step have at most window + 2 elements
                 ctx.cost_bound = to_int_term(SpecEval(ex, st, env).ev(spec.window)) + 2
                 ctx.props_cost = True
+            # C13: every key this indicator (or one of its helpers) writes is its own name or its name followed
+            # by "_...": two indicators with different names then write disjoint key sets unless one name
+            # extends the other with an underscore suffix that happens to be a helper name
+            for kk in helpers + [b.N for b in bounds[1:]]:
+                ok = vals.str_has_own_prefix(kk, N)
+                ctx.oblige(st, "namespace", f"own-prefix:{_short(kk)}", z3.BoolVal(bool(ok)), None, props=["C13"])
             ser.write_keys = set([N] + helpers)
             ser.write_index = i
             ser.own_keys = set([N] + helpers)
